@@ -54,6 +54,12 @@ pub enum Call {
     Abandon(AbTarget),
     Unbind,
     DropHandle,
+    /// a single operation issued through the open stream's own handle (`stream.ldap_handle()`)
+    SingleViaStream { kind: OpKind, marker: String },
+    /// a second, direct streaming search started through the open stream's own handle
+    StartInner { marker: String },
+    NextInner,
+    FinishInner,
 }
 
 #[derive(Clone, Copy, Debug, Serialize, Deserialize, PartialEq, Eq, Hash, PartialOrd, Ord)]
@@ -111,6 +117,13 @@ pub struct Plan {
     /// ExtendedResponse value / BindResponse serverSaslCreds are octets that are not UTF-8
     #[serde(default)]
     pub binary_payload: bool,
+    /// intermediate items are sent without name and value (the 7-octet message)
+    #[serde(default)]
+    pub bare_intermediate: bool,
+    /// every reference item repeats its URI (two equal URIs next to each other), the result's
+    /// referral (if any) lists its URI twice and then a non-ASCII one
+    #[serde(default)]
+    pub dup_refs: bool,
 }
 
 impl Default for Plan {
@@ -128,6 +141,8 @@ impl Default for Plan {
             page_refs: false,
             extra_res_ctrl: false,
             binary_payload: false,
+            bare_intermediate: false,
+            dup_refs: false,
         }
     }
 }
@@ -142,6 +157,8 @@ pub enum BogusKind {
     DupCompleted,
     /// a search entry for a search the server already finished
     EntryAfterDone,
+    /// an IntermediateResponse under the ID of a pending single-result operation
+    IntermediateForPending,
 }
 
 #[derive(Clone, Copy, Debug, Serialize, Deserialize, PartialEq, Eq, Hash, PartialOrd, Ord)]
@@ -149,6 +166,8 @@ pub enum FaultKind {
     Eof,
     Reset,
     Garbage,
+    /// a complete element that is no LDAPMessage (30 00), the peer then stays connected and silent
+    ShortGarbage,
     WriteErr,
     /// accept n more bytes, then fail
     WritePartial(usize),
